@@ -9,8 +9,8 @@ namespace Manticore.C14
 open Manticore
 open Manticore.Gen
 
-/-- the entry identifiers of the specification are the package's `KeyCredentialEntryType_*`; `FromBytes` switches on them in
-    this order -/
+-- the entry identifiers of the specification are the package's `KeyCredentialEntryType_*`; `FromBytes` switches on them in
+-- this order
 theorem consts_match_model_entry_types :
     [Spec.idKeyID, Spec.idKeyHash, Spec.idKeyMaterial, Spec.idKeyUsage, Spec.idKeySource, Spec.idDeviceId, Spec.idCustomKeyInformation]
       = [UInt8.ofNat ConstsC14.entry1, UInt8.ofNat ConstsC14.entry2, UInt8.ofNat ConstsC14.entry3, UInt8.ofNat ConstsC14.entry4,
@@ -21,16 +21,16 @@ theorem consts_match_model_entry_types :
            "key.KeyCredentialEntryType_CustomKeyInformation", "key.KeyCredentialEntryType_KeyApproximateLastLogonTimeStamp",
            "key.KeyCredentialEntryType_KeyCreationTime"] := ⟨by decide, rfl⟩
 
-/-- identifiers are hex for `KeyCredentialVersion_0` and `_1`, base64 otherwise -/
+-- identifiers are hex for `KeyCredentialVersion_0` and `_1`, base64 otherwise
 theorem consts_match_model_isHexVersion (v : UInt32) :
     isHexVersion v = (v == UInt32.ofNat ConstsC14.version0 || v == UInt32.ofNat ConstsC14.version1)
       ∧ ConstsC14.id_fromCases = ["key.KeyCredentialVersion_0", "key.KeyCredentialVersion_1", "key.KeyCredentialVersion_2"]
       ∧ ConstsC14.id_hexCase = ["hex.EncodeToString(keyIdentifier)"] ∧ ConstsC14.version2 = 0x200 := ⟨rfl, rfl, rfl, rfl⟩
 
-/-- the blob magic "RSA1", read and written -/
+-- the blob magic "RSA1", read and written
 theorem consts_match_model_rsa_magic : magicRSA1 = ConstsC14.rsa_magic ∧ magicRSA1 = ConstsC14.rsa_magicOut := by decide
 
-/-- `RSAKeyMaterial.FromBytes`: the 24-byte header, the offsets of its five fields, where the body starts, the exponent shift -/
+-- `RSAKeyMaterial.FromBytes`: the 24-byte header, the offsets of its five fields, where the body starts, the exponent shift
 theorem consts_match_model_rsa_fromBytes (rk : RSAKeyMaterial) (value _extra : Bytes) :
     RSAKeyMaterial.fromBytes rk value _extra =
     (
@@ -51,7 +51,7 @@ theorem consts_match_model_rsa_fromBytes (rk : RSAKeyMaterial) (value _extra : B
                          prime1 := (value.drop (o1 + mSize)).take p1Size,
                          prime2 := (value.drop (o1 + mSize + p1Size)).take p2Size }, false)) := by exact rfl
 
-/-- `RSAKeyMaterial.ToBytes`: the exponent is written in four bytes -/
+-- `RSAKeyMaterial.ToBytes`: the exponent is written in four bytes
 theorem consts_match_model_rsa_toBytes (rk : RSAKeyMaterial) :
     RSAKeyMaterial.toBytes rk =
     (
@@ -59,8 +59,8 @@ theorem consts_match_model_rsa_toBytes (rk : RSAKeyMaterial) :
         putLe32 (UInt32.ofNat rk.prime1.length) ++ putLe32 (UInt32.ofNat rk.prime2.length) ++
         putBe32 rk.exponent ++ rk.modulus ++ rk.prime1 ++ rk.prime2) := by exact rfl
 
-/-- `RSAKeyMaterial`: every header field is a little-endian 32-bit word of width 4, the exponent is written big-endian; the
-    order in which `ToBytes` appends -/
+-- `RSAKeyMaterial`: every header field is a little-endian 32-bit word of width 4, the exponent is written big-endian; the
+-- order in which `ToBytes` appends
 theorem consts_match_model_rsa_layout :
     [ConstsC14.rsa_keySize_hi - ConstsC14.rsa_keySize_lo, ConstsC14.rsa_eSize_hi - ConstsC14.rsa_eSize_lo, ConstsC14.rsa_mSize_hi - ConstsC14.rsa_mSize_lo,
      ConstsC14.rsa_p1Size_hi - ConstsC14.rsa_p1Size_lo, ConstsC14.rsa_p2Size_hi - ConstsC14.rsa_p2Size_lo] = [4, 4, 4, 4, 4]
@@ -73,7 +73,7 @@ theorem consts_match_model_rsa_layout :
           = "(> (+ (+ (+ (uint64 exponentSize) (uint64 modulusSize)) (uint64 prime1Size)) (uint64 prime2Size)) (uint64 (- (len value) 24)))"
       ∧ ConstsC14.rsa_exponent_shape = "(| (<< rk.Exponent 8) (uint32 (index value (+ offset i))))" := ⟨by decide, rfl, rfl, rfl, rfl, rfl⟩
 
-/-- `CustomKeyInformation.FromBytes`: the version, the length ladder 3, 4, 5, 9, 19, >19 and where each field is read -/
+-- `CustomKeyInformation.FromBytes`: the version, the length ladder 3, 4, 5, 9, 19, >19 and where each field is read
 theorem consts_match_model_cki_fromBytes (c : CKI) (blob : Bytes) :
     CKI.fromBytes c blob =
     (
@@ -99,8 +99,8 @@ theorem consts_match_model_cki_fromBytes (c : CKI) (blob : Bytes) :
           ({ c with extended := rest.drop (ConstsC14.cki_extendedAt_lo - ConstsC14.cki_minLen) }, false)
       | _ => (c, true)) := by exact rfl
 
-/-- the ladder of `CustomKeyInformation.FromBytes` is consistent: each step starts where the previous one ended; the first two
-    bytes are version and flags (the model's pattern `v :: f :: rest`) -/
+-- the ladder of `CustomKeyInformation.FromBytes` is consistent: each step starts where the previous one ended; the first two
+-- bytes are version and flags (the model's pattern `v :: f :: rest`)
 theorem consts_match_model_cki_ladder :
     [ConstsC14.cki_volume_above, ConstsC14.cki_notify_above, ConstsC14.cki_fek_above, ConstsC14.cki_strength_above, ConstsC14.cki_reserved_above,
      ConstsC14.cki_extended_above]
@@ -110,7 +110,7 @@ theorem consts_match_model_cki_ladder :
       ∧ ConstsC14.cki_strengthAt_hi = ConstsC14.cki_strengthAt_lo + 4 ∧ ConstsC14.cki_reservedAt_hi = ConstsC14.cki_reservedAt_lo + ConstsC14.cki_reservedLen
       ∧ ConstsC14.cki_extendedLen_minus = ConstsC14.cki_extendedAt_lo := by decide
 
-/-- the `switch entryType.Value` of `KeyCredential.FromBytes`: the nine type codes and the minimum lengths 16, 8, 8 -/
+-- the `switch entryType.Value` of `KeyCredential.FromBytes`: the nine type codes and the minimum lengths 16, 8, 8
 theorem consts_match_model_applyEntry (k : KeyCredential) (t : UInt8) (data extra : Bytes) :
     applyEntry k t data extra =
     (
@@ -151,9 +151,9 @@ theorem consts_match_model_applyEntry (k : KeyCredential) (t : UInt8) (data extr
         | .panic => .panic
       else .ok k) := by exact rfl
 
-/-- the entry framing: a 4-byte version, then while more than 3 bytes remain a little-endian 16-bit length at [0:2], the type at
-    [2], 3 header bytes (the model's patterns `v0 :: v1 :: v2 :: v3 :: rest` and `l0 :: l1 :: t :: x :: rest'`); a one-byte usage, a source of
-    at least one byte -/
+-- the entry framing: a 4-byte version, then while more than 3 bytes remain a little-endian 16-bit length at [0:2], the type at
+-- [2], 3 header bytes (the model's patterns `v0 :: v1 :: v2 :: v3 :: rest` and `l0 :: l1 :: t :: x :: rest'`); a one-byte usage, a source of
+-- at least one byte
 theorem consts_match_model_entry_framing :
     [ConstsC14.kc_minLen, ConstsC14.kc_loopAbove, ConstsC14.kc_length_hi, ConstsC14.kc_typeIdx, ConstsC14.kc_header_size, ConstsC14.kc_usageLen,
      ConstsC14.kc_sourceMin] = [4, 3, 2, 2, 3, 1, 1]
